@@ -142,6 +142,37 @@ pub fn observe(_ctx: &Ctx, st: &mut Stats, rj: &RJob) {
         }
     };
     st.count("svg_bytes_parsed", svg.len() as u64);
+    // the document as a user gets it through `to_file`: every eighth job writes it over an existing, LONGER document
+    // (the same symbol with a wide margin) and reads it back - the file must hold exactly this document
+    if rj.job.seed % 8 == 5 {
+        let dir = std::env::var_os("VCHECK_TARGET_DIR").map(std::path::PathBuf::from).unwrap_or_else(|| _ctx.root.join("harness/target")).join("scratch");
+        let _ = std::fs::create_dir_all(&dir);
+        let path = dir.join(format!("c12-{}-{:x}.svg", std::process::id(), rj.job.seed));
+        let mut longer = rj.spec.clone();
+        longer.margin = Some(rj.spec.margin_value() + 40);
+        longer.layers.push((1, None));
+        let written = adapter::guarded(|| {
+            let a = longer.svg_builder().to_file(&qr, path.to_str().unwrap_or("c12.svg")).is_ok();
+            let b = rj.spec.svg_builder().to_file(&qr, path.to_str().unwrap_or("c12.svg")).is_ok();
+            (a, b)
+        });
+        let back = std::fs::read(&path);
+        let _ = std::fs::remove_file(&path);
+        match (written, back) {
+            (Ok((true, true)), Ok(bytes)) => {
+                if bytes != svg.as_bytes() {
+                    st.violation(ID, "file-differs-from-document", format!("to_file over an existing longer document left {} bytes, to_str gives {} (the file is what a user opens: it must be this well-formed document and nothing else) [spec: {}]", bytes.len(), svg.len(), rj.spec.describe()), rj.to_json());
+                    return;
+                }
+                st.count("documents_written_over_a_longer_file_and_read_back", 1);
+            }
+            (Err(p), _) => {
+                st.violation(ID, "render-panic", format!("to_file panicked: {p} [{}]", rj.spec.describe()), rj.to_json());
+                return;
+            }
+            (w, b) => st.inconclusive(format!("file route: cannot write / read back {} ({w:?}, {:?})", path.display(), b.map(|x| x.len()))),
+        }
+    }
     match svgcheck::check_svg(&svg, &qr, &rj.spec) {
         Ok(c) => {
             st.count("subpaths_matched_to_dark_modules", c.subpaths);
